@@ -16,6 +16,7 @@ import (
 	"github.com/gopher-fleece/gleece/v2/gast"
 	"github.com/gopher-fleece/gleece/v2/graphs"
 	"github.com/gopher-fleece/gleece/v2/graphs/dot"
+	"github.com/gopher-fleece/gleece/v2/infrastructure/verifhook"
 )
 
 type SymbolGraph struct {
@@ -420,6 +421,7 @@ func (g *SymbolGraph) FindByKind(kinds ...common.SymKind) []*SymbolNode {
 		}
 	}
 
+	results = verifhook.Permute("find-by-kind", results, func(n *SymbolNode) string { return n.Id.Id() })
 	return results
 }
 
